@@ -1,8 +1,52 @@
+/-
+C14 — Tie: what the extractor read from core/stores/sqlx/{tx,sqlconn}.go and core/stores/sqlc/cachedsql.go
+*now* equals what the model was written against.  A failing obligation = the code moved away from the model.
+-/
 import GoZero.Extracted.C14
 import GoZero.C14.Model
 namespace GoZero.C14.Tie
+open GoZero.C14
 open GoZero.Extracted.C14
 
 theorem extraction_clean : extractionErrors = [] := by decide
+
+/-- `transactOnConn`: begin guard (no body, no deferred decision when Begin fails), then the deferred
+decision  recover → Rollback | err ≠ nil → Rollback | else Commit, then the body. -/
+theorem tie_transactOnConnShape : transactOnConnShape =
+    ["call b", "if err != nil {", "return", "}",
+     "defer{", "func{", "recover", "if p != nil {", "call tx.Rollback", "if e != nil {", "}", "else{", "}", "}",
+     "else{", "if err != nil {", "call tx.Rollback", "if e != nil {", "}", "}",
+     "else{", "call tx.Commit", "}", "}", "}", "call func", "}",
+     "call fn", "return"] := by decide
+
+/-- `transact`: connection provider first; its failure is reported and nothing else happens. -/
+theorem tie_transactShape : transactShape =
+    ["call db.connProv", "if err != nil {", "call db.onError", "return", "}", "call transactOnConn", "return"] := by
+  decide
+
+theorem tie_beginShape : beginShape = ["call db.Begin", "if err != nil {", "return", "}", "return"] := by decide
+
+/-- `TransactCtx`: the whole of `transact` runs inside the breaker with `db.acceptable`. -/
+theorem tie_transactCtxShape : transactCtxShape =
+    ["call startSpan", "defer{", "func{", "call endSpan", "}", "call func", "}",
+     "func{", "call transact", "return", "}", "call db.brk.DoWithAcceptableCtx",
+     "if errors.Is(err, breaker.ErrServiceUnavailable) {", "call metricReqErr.Inc", "}", "return"] := by decide
+
+theorem tie_transactPlainShape : transactPlainShape =
+    ["call context.Background", "func{", "call fn", "return", "}", "call db.TransactCtx", "return"] := by decide
+
+/-- `acceptable`: nil / ErrNoRows / ErrTxDone / Canceled, then acceptableError, then the user function. -/
+theorem tie_acceptableShape : acceptableShape =
+    ["if err == nil || errorx.In(err, sql.ErrNoRows, sql.ErrTxDone, context.Canceled) {", "return", "}",
+     "if errors.As(err, &e) {", "return", "}", "if db.accept == nil {", "return", "}",
+     "call db.accept", "return"] := by decide
+
+theorem tie_cachedTransactCtxShape : cachedTransactCtxShape = ["call cc.db.TransactCtx", "return"] := by decide
+
+theorem tie_cachedTransactShape : cachedTransactShape =
+    ["func{", "call fn", "return", "}", "call context.Background", "call cc.TransactCtx", "return"] := by decide
+
+/-- nested transactions never reach the driver -/
+theorem tie_txConnShapes : txConnTransactShape = ["return"] ∧ txConnTransactCtxShape = ["return"] := by decide
 
 end GoZero.C14.Tie
